@@ -22,7 +22,7 @@ func (area) Requires() string {
 }
 func (area) Check() string { return "check_case" }
 func (area) Rule() string {
-	return "mode idle (3 of 4 histories): 1-4 threads of kinds {raw IdleInvoker, cleanRunner.Run, cleanRunner.CheckReadiness, cleanBuildDirectoryCreator over root} sharing one IdleInvoker, 15-60 requested steps (acq/rel/wake/cancel/done) chosen by a guidance simulation plus 5% noise, cleaner failure 15%, base runner failure 15%, unbalanced raw releases in 10% of histories; requested steps that are not enabled in the harness' observed thread state are skipped, the executed schedule is what the case records; non-trivial = some Acquire slept behind a running cleaner, some sleeper was woken and some cleaner run failed. " +
+	return "mode idle (3 of 4 histories on average): 1-4 threads of kinds {raw IdleInvoker, cleanRunner.Run, cleanRunner.CheckReadiness, cleanBuildDirectoryCreator over root} sharing one IdleInvoker, 15-60 requested steps (acq/rel/wake/cancel/done) chosen by a guidance simulation plus 5% noise, cleaner failure 15%, base runner failure 15%, unbalanced raw releases in 10% of histories; requested steps that are not enabled in the harness' observed thread state are skipped, the executed schedule is what the case records; non-trivial = some Acquire slept behind a running cleaner, some sleeper was woken and some cleaner run failed. " +
 		"mode dirs (1 of 4): 10-40 operations get/close/write on Shared(Clean(Root)) with <=4 slots, digests from 3 hashes or none (counter names), failure flags 12% per injected call; non-trivial = at least one failed get after mkdir succeeded or failed close, and two directories open at once. distinct by hash of the case term"
 }
 
@@ -31,7 +31,8 @@ type modeProbe struct {
 }
 
 func (area) Generate(r *rng.R, thorough bool, index int) json.RawMessage {
-	if index%4 == 3 {
+	// mode by the case's own generator, so that the modes spread over shards
+	if r.Intn(4) == 3 {
 		return generateDirs(r, thorough)
 	}
 	return generateIdle(r, thorough, index)
